@@ -114,6 +114,7 @@ def kernel_kinds(run):
     cmp_obligation(run)
     imm_obligation(run)
     oparm_obligation(run)
+    partial_unwrap_obligation(run)
 
 
 def cmp_obligation(run):
@@ -164,6 +165,56 @@ def cmp_obligation(run):
     json.dump({"property": run.pid, "kind": "cmp", "what": what, "call": call, "observed": obs, "how": "./check %s --replay <this file>" % run.pid}, open(path, "w"), indent=1)
     run.violation("cmp:%s-%s" % (a, b), "%s; natively: %s: %s" % (what, call, obs[:200]), path)
     run.ob(oid, "fail", note=obs[:200], **common)
+
+
+def partial_unwrap_obligation(run):
+    """E3s: the result of a partial conversion of a double (None for NaN / infinities) is never unwrapped in the numeric code"""
+    import os, re, json, shutil, subprocess, time
+    import ws, p_order
+    oid = "partial:conversions-of-doubles-are-not-unwrapped"
+    M = getattr(run, "_mir", None)
+    t0 = time.time()
+    try:
+        r = p_order.analyse_partial_unwrap(open(M["out"]).read())
+    except Exception as ex:
+        run.ob(oid, "inconclusive", reason="extraction failed: %s" % str(ex)[-300:], engine="mir-smt")
+        return
+    common = dict(engine="mir-smt/z3", wall_s=round(time.time() - t0, 1), solver_s=round(r["dt"], 3), solver_checks=1)
+    run.samples.append({"engine": "mir-smt", "query": "exists an Option::unwrap / expect site in rvals.rs / primitives/numbers.rs whose operand derives from from_f64 / from_f32 / from_float (None for NaN and the infinities)",
+                        "unwrap sites": r["sites"], "of a partial conversion": [(b["function"], b["bb"]) for b in r["bad"]]})
+    run.functions.append("rvals::{partial_cmp, number_equality, ..}, primitives::numbers::*: operands of %d unwrap / expect sites (MIR)" % r["sites"])
+    if r["res"] == "error" or r["sites"] < 8:
+        run.ob(oid, "inconclusive", reason="solver error or only %d unwrap sites in scope" % r["sites"], **common)
+        return
+    if r["res"] == "unsat":
+        run.ob(oid, "pass", nonvacuous=True, note="%d unwrap / expect sites, none on the result of a partial conversion of a double" % r["sites"], **common)
+        return
+    b = r["bad"][0]
+    what = "%s unwraps the result of a partial conversion of a double (%s)" % (b["function"], b["what"][:80])
+    obs = None
+    try:
+        shutil.copy(os.path.join(ws.VERIF, "harness", "arity_replay.rs"), os.path.join(M["wsdir"], "crates", "steel-core", "tests", "verif_arity_replay.rs"))
+        for call in ("(< +inf.0 (expt 10 30))", "(< (expt 10 30) +inf.0)", "(< +nan.0 (expt 10 30))", "(< (expt 10 30) +nan.0)", "(> -inf.0 (/ 1 (expt 10 30)))", "(< (/ 1 (expt 10 30)) +nan.0)",
+                     "(= +inf.0 (expt 10 30))", "(exact +inf.0)", "(exact +nan.0)", "(rationalize +inf.0 1)"):
+            p = subprocess.run(["cargo", "test", "--offline", "-p", "steel-core", "--no-default-features", "--features", ws.FEATURES,
+                                "--test", "verif_arity_replay", "--target-dir", os.path.join(M["root"], "tn"), "--", "kinds_replay", "--exact", "--nocapture"],
+                               cwd=M["wsdir"], env=dict(M["env"], VERIF_KINDS_CALL=call), capture_output=True, text=True, timeout=1800)
+            m = re.search(r"OBSERVED: (.*)", p.stdout + p.stderr)
+            if m:
+                obs = (call, m.group(1))
+                break
+    except Exception as ex:
+        run.ob(oid, "inconclusive", reason="replay failed: %s" % str(ex)[-300:], **common)
+        return
+    if not obs:
+        run.ob(oid, "inconclusive", reason="solver: %s; no probe call with a non-finite double panicked natively" % what, **common)
+        return
+    d = os.path.join(ws.VERIF, "replays", run.pid)
+    os.makedirs(d, exist_ok=True)
+    path = os.path.join(d, "partial_unwrap.json")
+    json.dump({"property": run.pid, "kind": "cmp", "what": what, "call": obs[0], "observed": obs[1], "how": "./check %s --replay <this file>" % run.pid}, open(path, "w"), indent=1)
+    run.violation("partial:%s" % b["function"], "%s; natively: %s: %s" % (what, obs[0], obs[1][:200]), path)
+    run.ob(oid, "fail", note=obs[1][:200], **common)
 
 
 def oparm_obligation(run):
